@@ -372,7 +372,7 @@ def _where(ex):
     return frames[-1] if frames else "?"
 
 
-def byte_obligation(res, j, explen, spec_val, extra=()):
+def byte_obligation(res, j, explen, spec_val, extra=(), maxlen=None):
     """Case split of 'the result differs from the specification': the length differs, or for some segment k
     byte j lies in segment k and differs. j/explen/spec_val: SymInt/int. Returns a list of SymBool/bool cases."""
     from symx.sbytes import SymBytes
@@ -385,7 +385,12 @@ def byte_obligation(res, j, explen, spec_val, extra=()):
         v = res._seg_byte(s, j - pos)
         cases.append(core.sym_and(inrange, j >= pos, j < pos + s.length, v != spec_val))
         pos = pos + s.length
-    cases.insert(0, pos != explen)
+    if maxlen is None:
+        cases.insert(0, pos != explen)
+    else:
+        # back-end contract for requests that run past the end of the disk: at least the bytes up to the end,
+        # at most the requested length
+        cases.insert(0, core.sym_or(pos < explen, pos > maxlen))
     cases.extend(extra)
     return [c for c in cases if c is not False]
 
@@ -428,6 +433,8 @@ def generic_in_process(desc):
         return "violation", "returned normally"
     if "len" in exp and len(res) != exp["len"]:
         return "violation", f"length {len(res)} != {exp['len']}"
+    if "min_len" in exp and not (exp["min_len"] <= len(res) <= exp["max_len"]):
+        return "violation", f"length {len(res)} outside [{exp['min_len']}, {exp['max_len']}]"
     for j, v in exp.get("bytes", []):
         if j >= len(res) or res[j] != v:
             return "violation", f"byte {j}: {res[j] if j < len(res) else None} != {v}"
@@ -446,7 +453,8 @@ def files_desc(model, apps, seed, names=("img",), size=1 << 70, labels=None, siz
 
 
 def read_scenario(ctx, E, vars_, *, entry, params, call, total, g0, spec_at, unit, rng, names=("img",), opaque=(),
-                  prefer=(), extra=(), need=(), j=None, extra_units=(), post_files=None, sizes=None, opaque_sizes=None):
+                  prefer=(), extra=(), need=(), j=None, extra_units=(), post_files=None, sizes=None, opaque_sizes=None,
+                  maxlen=None):
     """Scenario for a read request.
     params/call/total/g0: callables(model) -> JSON value / int;
     spec_at(model, g:int, mems, opaques) -> int: the oracle evaluated concretely on the image."""
@@ -481,6 +489,8 @@ def read_scenario(ctx, E, vars_, *, entry, params, call, total, g0, spec_at, uni
         out = []
         for jj in sample_positions(rng, tot, unit, mj, extra_units) if tot > 0 else []:
             out.append([jj, int(spec_at(model, base + jj, mems, ops))])
+        if maxlen is not None:
+            return dict(min_len=tot, max_len=maxlen(model), bytes=out)
         return dict(len=tot, bytes=out)
 
     return Scenario(vars_, build, expect, extra=list(extra), prefer=list(prefer), need=list(need))
